@@ -92,11 +92,19 @@ def run_obligation(prop: str, module: str, ob, known: list, workdir: str, seed: 
 
     # --- reachability twin: must be refuted
     if ob.twin and ob.expect == "confirm":
-        tw = _run_spec({**base, "mode": "twin", "timeout": min(ob.timeout, 60), "path_timeout": ob.path_timeout}, workdir, ob.name + ".twin", min(ob.timeout, 60) * 1.5 + 60)
+        tw = _run_spec({**base, "mode": "twin", "timeout": min(ob.timeout, 60), "path_timeout": ob.path_timeout}, workdir, ob.name + ".twin", min(ob.timeout, 60) * 4 + 120)
+        if tw.get("states") != ["POST_FAIL"] and tw.get("verdict") == "inconclusive":
+            # the twin ran out of time before it reached the oracle (slow paths, loaded machine): that
+            # shows nothing either way - once more with the obligation's own budget
+            res["paths"] += tw.get("paths", 0)
+            tw = _run_spec({**base, "mode": "twin", "timeout": ob.timeout, "path_timeout": ob.path_timeout}, workdir, ob.name + ".twin2", ob.timeout * 4 + 120)
         res["twin"] = tw.get("verdict") if tw.get("verdict") != "harness_error" else tw.get("message")
         res["paths"] += tw.get("paths", 0)
         if tw.get("states") != ["POST_FAIL"]:
-            res.update(status="harness_error", message=f"reachability twin not refuted ({tw.get('verdict')}: {tw.get('message', '')[:300]}): harness is vacuous or broken")
+            if tw.get("verdict") == "inconclusive":  # vacuity neither shown nor excluded: no verdict for this obligation
+                res.update(status="inconclusive", message=f"reachability twin inconclusive ({tw.get('message', '')[:200]}): the obligation is not counted as discharged")
+            else:
+                res.update(status="harness_error", message=f"reachability twin not refuted ({tw.get('verdict')}: {tw.get('message', '')[:300]}): harness is vacuous or broken")
             res["wall_s"] = round(time.time() - t0, 1)
             return res
 
